@@ -24,6 +24,7 @@ type fsInode struct {
 	id      int
 	dir     bool
 	content []Int
+	mtime   int // logical time of the last content change
 }
 
 type fsNode struct {
@@ -34,11 +35,18 @@ type fsNode struct {
 type fsModel struct {
 	nodes []*fsNode
 	next  int
+	tick  int
+}
+
+func (e *Exec) fsTouch(i *fsInode) {
+	e.fs.tick++
+	i.mtime = e.fs.tick
 }
 
 func (e *Exec) fsNewInode(dir bool) *fsInode {
 	e.fs.next++
-	return &fsInode{id: e.fs.next, dir: dir}
+	e.fs.tick++
+	return &fsInode{id: e.fs.next, dir: dir, mtime: e.fs.tick}
 }
 
 func concBytes(b []Int) (string, bool) {
@@ -87,14 +95,15 @@ type fileObj struct {
 
 // infoObj serves as fs.FileInfo and fs.DirEntry.
 type infoObj struct {
-	name value
-	dir  bool
-	size int
-	ino  int
+	name  value
+	dir   bool
+	size  int
+	ino   int
+	mtime int
 }
 
 func (o *infoObj) methods() map[string]bool {
-	return map[string]bool{"Name": true, "IsDir": true, "Size": true, "Type": true, "Info": true, "Mode": true}
+	return map[string]bool{"Name": true, "IsDir": true, "Size": true, "Type": true, "Info": true, "Mode": true, "ModTime": true}
 }
 
 func (o *infoObj) invoke(e *Exec, method string, args []value) value {
@@ -105,6 +114,9 @@ func (o *infoObj) invoke(e *Exec, method string, args []value) value {
 		return Bool{C: o.dir}
 	case "Size":
 		return mkI64(int64(o.size))
+	case "ModTime":
+		// one second per change of any file's contents, from a fixed origin
+		return TimeV{Sec: mkI64(1_600_000_000 + int64(o.mtime)), Nsec: mkI64(0)}
 	}
 	panic(inconclusive{"method " + method + " on a model directory entry"})
 }
@@ -189,6 +201,7 @@ func (e *Exec) fsIntrinsic(name string, args []value) (value, bool) {
 			e.fs.nodes = append(e.fs.nodes, n)
 		}
 		n.ino.content = append([]Int{}, strBytes(args[1])...)
+		e.fsTouch(n.ino)
 		return nil, true
 	case "vfsAppend":
 		n := e.fsLookup(args[0])
@@ -197,10 +210,12 @@ func (e *Exec) fsIntrinsic(name string, args []value) (value, bool) {
 			e.fs.nodes = append(e.fs.nodes, n)
 		}
 		n.ino.content = append(n.ino.content, strBytes(args[1])...)
+		e.fsTouch(n.ino)
 		return nil, true
 	case "vfsTruncate":
 		if n := e.fsLookup(args[0]); n != nil {
 			n.ino.content = nil
+			e.fsTouch(n.ino)
 		}
 		return nil, true
 	case "vfsRename":
@@ -229,6 +244,7 @@ func (e *Exec) fsIntrinsic(name string, args []value) (value, bool) {
 			e.fs.nodes = append(e.fs.nodes, o)
 		}
 		o.ino.content = append([]Int{}, n.ino.content...)
+		e.fsTouch(o.ino)
 		return nil, true
 	case "vfsExists":
 		return Bool{C: e.fsLookup(args[0]) != nil}, true
@@ -268,7 +284,7 @@ func init() {
 		if n == nil {
 			return tuple{iface{}, notExist(e, "stat")}
 		}
-		return tuple{iface{t: fileInfoT(fn, 0), v: &infoObj{name: n.name, dir: n.ino.dir, size: len(n.ino.content), ino: n.ino.id}}, iface{}}
+		return tuple{iface{t: fileInfoT(fn, 0), v: &infoObj{name: n.name, dir: n.ino.dir, size: len(n.ino.content), ino: n.ino.id, mtime: n.ino.mtime}}, iface{}}
 	}
 	stubs["os.ReadDir"] = func(e *Exec, fn *ssa.Function, args []value) value {
 		name, ok := e.fsSplit(args[0])
@@ -281,7 +297,7 @@ func init() {
 		et := fn.Signature.Results().At(0).Type().(*types.Slice).Elem()
 		var out []value
 		for _, n := range nodes {
-			out = append(out, iface{t: et, v: &infoObj{name: n.name, dir: n.ino.dir, size: len(n.ino.content), ino: n.ino.id}})
+			out = append(out, iface{t: et, v: &infoObj{name: n.name, dir: n.ino.dir, size: len(n.ino.content), ino: n.ino.id, mtime: n.ino.mtime}})
 		}
 		return tuple{out, iface{}}
 	}
@@ -365,6 +381,10 @@ func init() {
 			}
 		}
 		return Bool{C: false}
+	}
+	stubs["(*os.File).Stat"] = func(e *Exec, fn *ssa.Function, args []value) value {
+		f := fileOf(args[0])
+		return tuple{iface{t: fn.Signature.Results().At(0).Type(), v: &infoObj{name: "", dir: f.ino.dir, size: len(f.ino.content), ino: f.ino.id, mtime: f.ino.mtime}}, iface{}}
 	}
 	stubs["(*os.File).Close"] = func(e *Exec, fn *ssa.Function, args []value) value {
 		fileOf(args[0])
